@@ -70,3 +70,61 @@ package jsonpatch
 //@   ensures[C08] attrs: !isTestFailed(err) && !isMissing(err) && !isCopyLimit(err)
 //@   ensures[C08] invalid-index: err != nil && atoiOK(key) ==> isInvalidIndex(err)
 //@   ensures[C01,C05] old-cells-kept: forall j int :: 0 <= j && j < n ==> old(d.nodes)[j] == old(d.nodes[j])
+
+//@ func (*partialDoc).get
+//@   requires recv: d != nil
+//@   modifies nothing
+//@   ensures[C01] nil-map: d.obj == nil ==> err != nil
+//@   ensures[C01,C13] ok-iff: d.obj != nil ==> ((err == nil) <==> key in d.obj)
+//@   ensures[C01] value: err == nil ==> result.0 == d.obj[key]
+//@   ensures[C01,C08] nil-on-error: err != nil ==> result.0 == nil
+//@   ensures[C08] attrs: !isTestFailed(err) && !isCopyLimit(err) && !isInvalidIndex(err)
+//@   ensures[C08] missing: d.obj != nil && err != nil ==> isMissing(err)
+
+//@ func (*partialDoc).set
+//@   requires recv: d != nil
+//@   requires inv: TreeInv() && allocated(d) && childOK(val)
+//@   modifies d.keys, elems(d.keys), mapof(d.obj)
+//@   ensures[C04] inv: TreeInv()
+//@   ensures[C01] ok-iff: (err == nil) <==> d.obj != nil
+//@   ensures[C01] stored: err == nil ==> key in d.obj && d.obj[key] == val
+//@   ensures[C01,C05] others: forall k string :: k != key ==> ((k in d.obj) <==> old(k in d.obj)) && d.obj[k] == old(d.obj[k])
+//@   ensures[C01,C08] unchanged-on-error: err != nil ==> d.keys == old(d.keys)
+//@   ensures[C05] existing-key-keeps-position: old(key in d.obj) ==> d.keys == old(d.keys)
+//@   ensures[C05] new-key-appended: err == nil && !old(key in d.obj) ==> (len(d.keys) == old(len(d.keys)) + 1 && d.keys[old(len(d.keys))] == key) || d.keys == old(d.keys)
+//@   ensures[C05] order-kept: forall j int :: 0 <= j && j < old(len(d.keys)) ==> d.keys[j] == old(d.keys[j])
+//@   ensures[C08] attrs: !isTestFailed(err) && !isCopyLimit(err) && !isMissing(err) && !isInvalidIndex(err)
+//@   loop 1
+//@   invariant bounds: -1 <= rangeindex && rangeindex < len(d.keys)
+//@   invariant not-found-so-far: forall j int :: 0 <= j && j <= rangeindex ==> d.keys[j] != key
+
+//@ func (*partialDoc).add
+//@   requires recv: d != nil
+//@   requires inv: TreeInv() && allocated(d) && childOK(val)
+//@   modifies d.keys, elems(d.keys), mapof(d.obj)
+//@   ensures[C04] inv: TreeInv()
+//@   ensures[C01] ok-iff: (err == nil) <==> d.obj != nil
+//@   ensures[C01] stored: err == nil ==> key in d.obj && d.obj[key] == val
+//@   ensures[C01,C05] others: forall k string :: k != key ==> ((k in d.obj) <==> old(k in d.obj)) && d.obj[k] == old(d.obj[k])
+//@   ensures[C01,C08] unchanged-on-error: err != nil ==> d.keys == old(d.keys)
+//@   ensures[C05] existing-key-keeps-position: old(key in d.obj) ==> d.keys == old(d.keys)
+//@   ensures[C05] order-kept: forall j int :: 0 <= j && j < old(len(d.keys)) ==> d.keys[j] == old(d.keys[j])
+//@   ensures[C08] attrs: !isTestFailed(err) && !isCopyLimit(err) && !isMissing(err) && !isInvalidIndex(err)
+
+//@ func (*partialDoc).remove
+//@   requires recv: d != nil && options != nil
+//@   requires inv: TreeInv() && allocated(d)
+//@   modifies d.keys, elems(d.keys), mapof(d.obj)
+//@   let allow = options.AllowMissingPathOnRemove
+//@   ensures[C04] inv: TreeInv()
+//@   ensures[C01,C13] removed: old(key in d.obj) ==> err == nil && !(key in d.obj)
+//@   ensures[C01,C05,C13] others: forall k string :: k != key ==> ((k in d.obj) <==> old(k in d.obj)) && d.obj[k] == old(d.obj[k])
+//@   ensures[C13] absent-unchanged: !old(key in d.obj) ==> d.keys == old(d.keys) && !(key in d.obj)
+//@   ensures[C13] absent-skipped: d.obj != nil && !old(key in d.obj) && allow ==> err == nil
+//@   ensures[C01,C13] absent-fails: !old(key in d.obj) && !(d.obj != nil && allow) ==> err != nil
+//@   ensures[C08] missing: d.obj != nil && err != nil ==> isMissing(err)
+//@   ensures[C08] attrs: !isTestFailed(err) && !isCopyLimit(err) && !isInvalidIndex(err)
+//@   ensures[C05] order: old(key in d.obj) ==> exists ix int :: 0 <= ix && ix < old(len(d.keys)) && old(d.keys[ix]) == key && len(d.keys) == old(len(d.keys)) - 1 && (forall j int :: 0 <= j && j < ix ==> d.keys[j] == old(d.keys[j])) && (forall j int :: ix <= j && j < len(d.keys) ==> d.keys[j] == old(d.keys[j+1]))
+//@   loop 1
+//@   invariant bounds: -1 <= rangeindex && rangeindex < len(d.keys)
+//@   invariant not-found-so-far: forall j int :: 0 <= j && j <= rangeindex ==> d.keys[j] != key
